@@ -48,7 +48,7 @@ def angle_from_pair(m, c, s):
     return math.atan2(pysym.model_float(m, s), pysym.model_float(m, c))
 
 def run_identities(ck, name, fn, replay=None, timeout_ms=20000, maxpaths=2000, stretch=False, key=None,
-                   expect_paths=None, pre=None):
+                   expect_paths=None, pre=None, keyfn=None):
     """fn() -> dict(goals=[(label, z3 Bool goal)], inputs={name: term}, pre=[z3 Bool], angles={name:(arg,)})
     Every goal is proved under hyp & pc & pre on every path.  replay(inputs_floats, label) -> (reproduced:bool, detail)"""
     npaths = 0; nviol = 0
@@ -56,6 +56,7 @@ def run_identities(ck, name, fn, replay=None, timeout_ms=20000, maxpaths=2000, s
         npaths += 1
         if res is None:
             ck.path(("%s|%s" % (name, taken)))
+            if status.startswith("inconclusive"): ck.undecided("%s@%s" % (name, taken), status, stretch=stretch)
             continue
         pre_ = list(res.get("pre", [])) + list(pre or [])
         base = list(hyp) + list(pc) + pre_
@@ -80,7 +81,7 @@ def run_identities(ck, name, fn, replay=None, timeout_ms=20000, maxpaths=2000, s
                 try: ok, detail = replay(vals, label)
                 except Exception as e: ok, detail = False, "replay raised %s: %s" % (type(e).__name__, e)
                 if ok:
-                    st = ck.violation("%s fails: %s" % (oname, detail), key or ("%s/%s" % (name, label)), dict(inputs=vals, label=label, harness=name))
+                    st = ck.violation("%s fails: %s" % (oname, detail), (keyfn(name, label) if keyfn else key) or ("%s/%s" % (name, label)), dict(inputs=vals, label=label, harness=name))
                     nviol += 1
                 else:
                     ck.not_reproduced("%s: model %s -> %s" % (oname, vals, detail))
@@ -92,3 +93,19 @@ def run_identities(ck, name, fn, replay=None, timeout_ms=20000, maxpaths=2000, s
 
 def close(a, b, rtol=1e-9, atol=1e-9):
     return abs(a - b) <= atol + rtol * max(abs(a), abs(b))
+
+
+# --------------------------------------------------------------------------------------------- process-parallel harness jobs
+_JOBS = {}
+def _job(i):
+    ck0, name, fn, kw = _JOBS[i]
+    common.STATS.__init__()
+    sub = common.Check(ck0.pid, ck0.tier)
+    run_identities(sub, name, fn, **kw)
+    return sub.export()
+
+def run_parallel(ck, jobs, ncpu=None):
+    """jobs: list of (name, fn, kwargs for run_identities).  Each job runs in a forked worker; results are merged into ck."""
+    _JOBS.clear()
+    for i, (name, fn, kw) in enumerate(jobs): _JOBS[i] = (ck, name, fn, kw)
+    for d in common.pmap(_job, list(range(len(jobs))), ncpu): ck.absorb(d)
